@@ -176,6 +176,14 @@ def revisit_histories(name, did):
             out.append([('read',), a, ('read',), b, back])
             out.append([a, ('read',), back, b, a])
             out.append([('read',), a, b, ('read',), back, ('conv', 'twosided')])
+    # an attribute re-assigned with ANOTHER SPELLING of the value it already has (NFFT = None while NFFT is the data length, 'nextpow2'
+    # while it is that power of two, sides = 'default' while sides is the default), after something else was changed
+    B = [o for o in R.alphabet(name, did) if o[0] == 'set']
+    for b in B:
+        out.append([('read',), b, ('set', 'NFFT', None)])
+        out.append([('set', 'NFFT', 32), ('read',), b, ('set', 'NFFT', 'nextpow2')])
+        out.append([('read',), b, ('set', 'sides', 'default')])
+        out.append([('read',), b, ('set', 'NFFT', None), ('conv', 'centerdc')])
     # the data replaced by a record that a tolerance-based comparison cannot tell from the old one
     for d1, d2 in R.CLOSE_PAIRS:
         if d1 == did:
@@ -366,9 +374,11 @@ def run(ctx):
             if ctx.tier == 'quick':
                 nclose = 4 * len(R.CLOSE_PAIRS) + 0
                 tail = [h for h in H if any(o[0] == 'set' and o[1] == 'data' and o[2] in ('r0p', 'c0p', 'r0t', 'r0u', 'c0t', 'c0u') for o in h)]
-                head = [h for h in H if h not in tail]
+                alias = [h for h in H if h not in tail and any(o[0] == 'set' and o[1:] in (('NFFT', None), ('NFFT', 'nextpow2'), ('sides', 'default')) for o in h)]
+                tail = tail + [alias[int(i)] for i in rng.choice(len(alias), size=min(len(alias), 14), replace=False)]
+                head = [h for h in H if h not in tail and h not in alias]
                 H = [head[int(i)] for i in rng.choice(len(head), size=min(len(head), 40), replace=False)] + \
-                    [tail[int(i)] for i in rng.choice(len(tail), size=min(len(tail), 6), replace=False)]
+                    [tail[int(i)] for i in rng.choice(len(tail), size=min(len(tail), 20), replace=False)]
             for ops in H:
                 rjobs.append((name, did, ops)); nrev += 1
     ctx.count('revisit_histories', nrev)
